@@ -55,6 +55,7 @@ class Query:
     order_by: list[Order] = dataclasses.field(default_factory=list)
     limit: int | None = None
     offset: int | None = None
+    summarized: bool = False  # an ungrouped `summarize` leaves `group_by` empty
 
 
 class SqlImpl(TableImpl):
@@ -434,7 +435,7 @@ class SqlImpl(TableImpl):
             query.select += nd.uuids
 
         elif isinstance(nd, verbs.Filter):
-            if query.group_by:
+            if query.group_by or query.summarized:
                 query.having.extend(nd.predicates)
             else:
                 query.where.extend(nd.predicates)
@@ -450,6 +451,7 @@ class SqlImpl(TableImpl):
             query.group_by.extend(col._uuid for col in query.partition_by if not types.is_const(col.dtype()))
             query.select = [col._uuid for col in query.partition_by] + nd.uuids
             query.partition_by = []
+            query.summarized = True
             query.order_by.clear()
 
         elif isinstance(nd, verbs.SliceHead):
